@@ -243,6 +243,10 @@ def run(tier):
                 ck.count('ragged_documents')
                 if e.get('out') == 'ok':
                     ck.violation('reader/ragged-record-accepted/%s%s' % (ragged, sfx), wit, 'a record with %s fields than the header was accepted' % ragged)
+                elif not str(e.get('exc', '')).startswith('BitSerializer::'):
+                    # "rejected" means reported by the reader as a parsing error, not an incidental std::out_of_range from a later cell access
+                    ck.violation('reader/ragged-record-not-rejected-by-the-parser/%s/%s%s' % (ragged, 'mem' if src == 'mem' else 'stream', sfx), wit,
+                                 'a record with %s fields than the header was not rejected by the reader; loading failed later with %s: %s' % (ragged, e.get('exc'), e.get('what')))
                 continue
             if e.get('out') != 'ok':
                 ck.violation('reader/rejected/%s/%s%s' % (e.get('code'), where, sfx), wit, 'RFC 4180 rendering rejected: %s' % e.get('what'))
